@@ -331,7 +331,7 @@ def generic_checks(r: common.Result, run: server.Run, reqs: List[str], cls: str,
         return None
     if len(run.lines) != len(reqs) + 1:
         r.violation(
-            {"kind": "reply_count", "request_class": cls, "got_minus_expected": len(run.lines) - len(reqs) - 1},
+            {"kind": "reply_count", "request_class": cls, "stdout_lines": "too_many" if len(run.lines) > len(reqs) + 1 else "too_few"},
             f"{msg_ctx}: {len(run.lines)} stdout lines for {len(reqs)} input lines (+1 initial)",
             cs,
         )
@@ -428,8 +428,13 @@ def check_seq(r: common.Result, dv: int, idxs: List[int], reps) -> None:
     r.evals += 1
     main = do_run(reqs, dv)
     if main.exc is not None:
-        # which request killed it: the one after the last reply
-        k = len(main.lines) - 1
+        # which request killed it: the last one of the shortest prefix that dies
+        k = len(reqs) - 1
+        for p_ in range(1, len(reqs)):
+            if do_run(reqs[:p_], dv).exc is not None:
+                k = p_ - 1
+                break
+            r.evals += 1
         cls = seq[k][3] if k < len(seq) else "probe"
         generic_checks(r, main, reqs, cls, ctx, cs)
         return
@@ -554,7 +559,7 @@ def conformance_one(case: dict) -> List[dict]:
     if inproc.exc is None and sub["rc"] != 0:
         viols.append({"sig": {"kind": "subprocess_exit_status", "request_class": cls, "rc": sub["rc"]}, "msg": f"{cls}: python -m kconfserver exited with {sub['rc']}: {sub['stderr'][-200:]}", "case": case})
     if inproc.exc is None and len(sub["lines"]) != len(reqs) + 1:
-        viols.append({"sig": {"kind": "reply_count", "request_class": "subprocess:" + cls, "got_minus_expected": len(sub["lines"]) - len(reqs) - 1},
+        viols.append({"sig": {"kind": "reply_count", "request_class": "subprocess:" + cls, "stdout_lines": "too_many" if len(sub["lines"]) > len(reqs) + 1 else "too_few"},
                       "msg": f"{cls}: subprocess wrote {len(sub['lines'])} stdout lines for {len(reqs)} input lines", "case": case})
     return viols
 
